@@ -17,9 +17,15 @@ from .sim import core
 
 # ------------------------------------------------------------------ authentication
 
+def _attachment(d):
+    from webauthn.helpers.structs import AuthenticatorAttachment
+    v = d.get("attachment")
+    return None if v is None else AuthenticatorAttachment(v)
+
+
 def auth_record(a):
     return AuthenticationCredential(
-        id=a["id"], raw_id=a["raw_id"], type=a.get("type", "public-key"),
+        id=a["id"], raw_id=a["raw_id"], type=a.get("type", "public-key"), authenticator_attachment=_attachment(a),
         response=AuthenticatorAssertionResponse(client_data_json=a["client_data_json"],
                                                 authenticator_data=a["authenticator_data"],
                                                 signature=a["signature"], user_handle=a.get("user_handle")))
@@ -116,7 +122,7 @@ def code_cose_to_pubkey(b):
 
 def reg_record(c):
     return RegistrationCredential(
-        id=c["id"], raw_id=c["raw_id"], type=c.get("type", "public-key"),
+        id=c["id"], raw_id=c["raw_id"], type=c.get("type", "public-key"), authenticator_attachment=_attachment(c),
         response=AuthenticatorAttestationResponse(client_data_json=c["client_data_json"],
                                                   attestation_object=c["attestation_object"],
                                                   transports=c.get("transports")))
@@ -141,13 +147,17 @@ def run_reg(c, e, form="record", cred_obj=None):
         from webauthn.helpers.cose import COSEAlgorithmIdentifier as _A
         kw["supported_pub_key_algs"] = [(_A(a) if a in _A._value2member_map_ else a) for a in e["algs"]]
     roots = e.get("roots") or {}
+    # the shape in which the RP holds each format's anchors: any iterable of PEM bytes is "a list of roots"
+    shape = e.get("roots_shape", "list")
+    wrap = {"list": list, "tuple": tuple, "generator": (lambda v: (p for p in list(v))), "iter": (lambda v: iter(list(v))),
+            "map": (lambda v: map(bytes, list(v)))}[shape]
 
     def call():
         return webauthn.verify_registration_response(
             credential=cred, expected_challenge=e["challenge"], expected_rp_id=e["rp_id"],
             expected_origin=e["origin"], require_user_presence=e.get("require_up", True),
             require_user_verification=e.get("require_uv", False),
-            pem_root_certs_bytes_by_fmt={AttestationFormat(k): list(v) for k, v in roots.items()} if roots else None, **kw)
+            pem_root_certs_bytes_by_fmt={AttestationFormat(k): wrap(v) for k, v in roots.items()} if roots else None, **kw)
     return code_outcome(call, record=lambda r: {
         "credential_id": r.credential_id.hex(), "credential_public_key": r.credential_public_key.hex(),
         "sign_count": str(r.sign_count), "aaguid": r.aaguid, "fmt": r.fmt.value if hasattr(r.fmt, "value") else r.fmt,
